@@ -8,6 +8,7 @@ import (
 	"encoding/json"
 	"flag"
 	"fmt"
+	"go/ast"
 	"os"
 	"path/filepath"
 	"runtime/debug"
@@ -28,7 +29,32 @@ func main() {
 	list := flag.Bool("list", false, "print all obligations")
 	arch := flag.String("goarch", "", "GOARCH for the analysis (default amd64)")
 	describe := flag.Bool("describe", false, "print the property table as JSON")
+	dumpFuncs := flag.Bool("dumpfuncs", false, "print the functions of the module (the reference list for helper expansion, known_funcs.txt)")
 	flag.Parse()
+	if *dumpFuncs {
+		os.Setenv("FRUGALVET_NO_EXPAND", "1")
+		c, err := Load(*repo, *arch)
+		if err != nil {
+			fmt.Fprintln(os.Stderr, err)
+			os.Exit(2)
+		}
+		var out []string
+		for _, p := range c.Pkgs {
+			for _, f := range p.Syntax {
+				for _, d := range f.Decls {
+					if fd, ok := d.(*ast.FuncDecl); ok {
+						out = append(out, funcDeclKey(p.PkgPath, fd))
+					}
+				}
+			}
+		}
+		sort.Strings(out)
+		fmt.Println("# functions of the reference tree: anything else is a helper introduced by the change under analysis (inline.go)")
+		for _, l := range out {
+			fmt.Println(l)
+		}
+		return
+	}
 	if *describe {
 		printDescribe()
 		return
@@ -56,6 +82,7 @@ type runResult struct {
 	cgEdges   int
 	goarch    string
 	graphKind string
+	expand    []string
 }
 
 // analyse runs the rules of a property on one configuration.
@@ -73,6 +100,7 @@ func analyse(repo, arch string, p *Property, useCHA bool, onlyRule string, thoro
 		res.fatal = append(res.fatal, "ANALYSIS-ERROR load: "+err.Error())
 		return
 	}
+	res.expand = c.ExpandNotes
 	c.useCHA = useCHA
 	c.thorough = thorough
 	for _, pk := range c.Pkgs {
@@ -284,6 +312,7 @@ func run(repo, propID, tier, evPath, knownPath, only, replayDir, arch string, li
 				"per_rule":            r0.stats,
 				"checker_cmd":         "bin/frugalvet -repo " + repo + " -prop " + propID + " -tier " + tier,
 				"technique":           p.Technique,
+				"helper_expansion":    append([]string{"functions absent from the reference list (checker/known_funcs.txt) are expanded at their call sites before the rules run; on this tree:"}, expandOrNone(r0.expand)...),
 			},
 			Assumptions: p.Assumes,
 			WallS:       time.Since(start).Seconds(),
@@ -324,4 +353,11 @@ func printDescribe() {
 	}
 	b, _ := json.MarshalIndent(map[string]interface{}{"properties": out, "not_applicable": notApplicable()}, "", " ")
 	fmt.Println(string(b))
+}
+
+func expandOrNone(n []string) []string {
+	if len(n) == 0 {
+		return []string{"nothing to expand (every function is in the reference list)"}
+	}
+	return n
 }
